@@ -84,6 +84,10 @@ def gen_stream_case(rng, kind, big=False, wrap=None):
     script['batches'] = [rng.choice([2, 3, 6]) for _ in range(n)]
   if wrap is None:
     wrap = rng.choice(['direct', 'direct', 'inram_policy'])
+    if kind in ('qr', 'sgrid', 'grid', 'eagle') and rng.random() < 0.35:
+      # hosted the way the service does it (NSGA-II / CMA-ES are left out: their
+      # RNG is documented as not persisted, so a rebuilt designer is not seeded)
+      wrap = 'stateless_policy'
   if big:
     script['batches'][0] = max(script['batches'][0], 6)
   return {'type': 'stream', 'designer': ds, 'problem': pd, 'seed': _seed(rng),
@@ -121,7 +125,10 @@ def gen_bench_case(rng, kind):
   ds = L.gen_designer(rng, kind)
   if kind == 'eagle':
     ds['cfg'] = {'variant': 'default'}
-  return {'type': 'bench', 'designer': ds, 'fn': rng.choice(X.BBOB_FNS),
+  infeasible = None
+  if rng.random() < 0.3:
+    infeasible = {'p': rng.choice([0.2, 0.5]), 'seed': rng.choice([0, 3, rng.getrandbits(16)])}
+  return {'type': 'bench', 'infeasible': infeasible, 'designer': ds, 'fn': rng.choice(X.BBOB_FNS),
           'fn_seed': rng.choice([0, 1, 7]), 'dim': rng.choice([2, 3, 4]),
           'noise': rng.choice(X.NOISES), 'noise_seed': rng.choice([0, 1, rng.getrandbits(20)]),
           'seed': _seed(rng), 'routine': routine, 'repeats': rng.choice([1, 2, 3])}
